@@ -24,9 +24,12 @@ CONSTANTS Layouts,      \* set of layout records (see Lay)
           Allowed,      \* verdicts the run may produce
           Emit, EmitMod
 
-VARIABLES lay, ids, slots
+VARIABLES lay, ids, slots,
+          acts    \* history: names of the actions taken so far (anti-vacuity bookkeeping, printed with the case)
 
-vars == <<rvars, lay, ids, slots>>
+vars == <<rvars, lay, ids, slots, acts>>
+
+Took(name) == acts' = acts \cup {name}
 
 \* A layout: n objects, k of them pages of a page tree (tree = TRUE: catalog, root, k pages, the rest
 \* further objects; tree = FALSE: n further objects and no Root), numbers drawn from nums, at most g1
@@ -50,15 +53,20 @@ LayoutsThorough ==
     {Lay(0, 0, FALSE, {1}, 0, 1, FALSE, 0, FALSE, FALSE),
      Lay(1, 0, FALSE, {1, 2, 3, 5}, 1, 1, FALSE, 0, FALSE, FALSE),
      Lay(2, 0, FALSE, {1, 2, 3, 5}, 1, 2, FALSE, 0, FALSE, FALSE),
-     Lay(3, 0, FALSE, {1, 2, 3, 5}, 2, 2, TRUE, 0, FALSE, FALSE),
+     Lay(3, 0, FALSE, {1, 2, 3, 5}, 2, 2, FALSE, 0, FALSE, FALSE),
      Lay(3, 1, TRUE, {1, 2, 3, 5}, 1, 1, FALSE, 1, TRUE, FALSE),
      Lay(4, 2, TRUE, {1, 2, 3, 5}, 1, 2, FALSE, 2, TRUE, TRUE),
-     Lay(4, 2, TRUE, {1, 2, 3, 5}, 2, 1, FALSE, 2, FALSE, FALSE),
+     Lay(4, 2, TRUE, {1, 2, 3, 5}, 2, 1, FALSE, 2, FALSE, TRUE),
      Lay(4, 1, TRUE, {1, 2, 3, 5}, 1, 2, FALSE, 1, FALSE, TRUE),
      Lay(5, 3, TRUE, {1, 2, 3, 4, 6}, 1, 1, FALSE, 2, FALSE, TRUE),
-     Lay(5, 2, TRUE, {1, 2, 3, 4, 6}, 1, 1, FALSE, 2, FALSE, TRUE)}
+     Lay(5, 2, TRUE, {1, 2, 3, 4, 6}, 0, 1, FALSE, 2, FALSE, TRUE)}
 
-\* outside the stated domain (kept for experiments): two live objects under one number
+\* smallest layout that takes every action (coverage run)
+LayoutsCov == {Lay(0, 0, FALSE, {1}, 0, 0, FALSE, 0, FALSE, TRUE), Lay(4, 2, TRUE, {1, 2, 3, 5}, 0, 0, FALSE, 1, FALSE, TRUE)}
+
+\* outside the stated domain (kept for experiments): two live objects under one number.  A cross-
+\* reference table has one entry per number, so no file yields such a document; on it the page-order
+\* pass can re-key a page onto another object's id (same number, the page's generation) and lose it.
 LayoutsShared ==
     {[Lay(4, 2, TRUE, {1, 2, 3}, 2, 1, FALSE, 1, FALSE, FALSE) EXCEPT !.shared = TRUE],
      [Lay(4, 1, TRUE, {1, 2, 3}, 2, 1, FALSE, 1, FALSE, FALSE) EXCEPT !.shared = TRUE]}
@@ -108,7 +116,7 @@ Blank == [objs |-> <<>>, trailer |-> <<>>, max_id |-> 0, bms |-> <<>>, pages |->
 
 Init ==
     /\ lay \in Layouts
-    /\ ids = <<>> /\ slots = <<>>
+    /\ ids = <<>> /\ slots = <<>> /\ acts = {}
     /\ before = Blank /\ start = 0 /\ s = ImplInit(Blank)
     /\ pc = "build1" /\ i = 0 /\ pg = <<>> /\ srt = <<>> /\ ord = <<>> /\ live = {}
 
@@ -123,7 +131,7 @@ Build1 ==
           /\ \A r1, r2 \in OtherRoles(lay) : r1 < r2 => IdLess(idf[r1], idf[r2])  \* interchangeable objects
           /\ (lay.red /\ lay.tree) => (num[1] < num[2] /\ g1 \cap {1, 2} = {})
           /\ ids' = idf
-    /\ pc' = "build2"
+    /\ pc' = "build2" /\ Took("Build1")
     /\ UNCHANGED <<lay, slots, before, start, s, i, pg, srt, ord, live>>
 
 Targets == {ids[r] : r \in Roles(lay)} \cup (DangIds \ {ids[r] : r \in Roles(lay)})
@@ -134,7 +142,7 @@ Build2 ==
     /\ \E sl \in [SlotSet(lay) -> Targets \cup {NoId}] :
           /\ Cardinality({x \in SlotSet(lay) : sl[x] # NoId}) <= lay.refs
           /\ slots' = sl
-    /\ pc' = "build3"
+    /\ pc' = "build3" /\ Took("Build2")
     /\ UNCHANGED <<lay, ids, before, start, s, i, pg, srt, ord, live>>
 
 BmTargets == {ids[r] : r \in PageRoles(lay)} \cup (IF lay.zero THEN {<<0, 0>>} ELSE {})
@@ -148,23 +156,23 @@ Build3 ==
     /\ \E bms \in BmChoices : \E st \in Starts \cup (IF lay.n = 0 THEN {0} ELSE {}) :
           LET d == BuildDoc(lay, ids, slots, bms) IN
           /\ before' = d /\ start' = st /\ s' = ImplInit(d)
-    /\ pc' = "begin"
+    /\ pc' = "begin" /\ Took("Build3")
     /\ UNCHANGED <<lay, ids, slots, i, pg, srt, ord, live>>
 
-BeginS       == Begin /\ UNCHANGED <<lay, ids, slots>>
-PagePairS    == PagePair /\ UNCHANGED <<lay, ids, slots>>
-PageFinishS  == PageFinish /\ UNCHANGED <<lay, ids, slots>>
-DensePlanS   == DensePlan /\ UNCHANGED <<lay, ids, slots>>
-DensePairS   == DensePair /\ UNCHANGED <<lay, ids, slots>>
+BeginS       == Begin /\ UNCHANGED <<lay, ids, slots>> /\ Took("BeginS")
+PagePairS    == PagePair /\ UNCHANGED <<lay, ids, slots>> /\ Took("PagePairS")
+PageFinishS  == PageFinish /\ UNCHANGED <<lay, ids, slots>> /\ Took("PageFinishS")
+DensePlanS   == DensePlan /\ UNCHANGED <<lay, ids, slots>> /\ Took("DensePlanS")
+DensePairS   == DensePair /\ UNCHANGED <<lay, ids, slots>> /\ Took("DensePairS")
 \* `new_id - 1`: with DevUnder = FALSE (repaired) an empty document with start 0 gets max_id 0
 DenseFinishS ==
     /\ DevUnder \/ start + Cardinality(live) # 0
-    /\ DenseFinish /\ UNCHANGED <<lay, ids, slots>>
+    /\ DenseFinish /\ UNCHANGED <<lay, ids, slots>> /\ Took("DenseFinishS")
 DenseFinishRepaired ==
     /\ ~DevUnder /\ pc = "dpair" /\ i > Len(ord) /\ start + Cardinality(live) = 0
     /\ s' = [FinishPass(s, live, DevChain, DevDang) EXCEPT !.max_id = 0]
     /\ pc' = "done"
-    /\ UNCHANGED <<before, start, i, pg, srt, ord, live, lay, ids, slots>>
+    /\ UNCHANGED <<before, start, i, pg, srt, ord, live, lay, ids, slots>> /\ Took("DenseFinishRepaired")
 
 Next == Build1 \/ Build2 \/ Build3 \/ BeginS \/ PagePairS \/ PageFinishS \/ DensePlanS \/ DensePairS
         \/ DenseFinishS \/ DenseFinishRepaired
@@ -208,5 +216,6 @@ EmitInv ==
                                    v      |-> Verdict,
                                    panic  |-> s.panic,
                                    needs  |-> NeedsOrdering(pg),
+                                   acts   |-> acts,
                                    impl   |-> JsonOfDoc(After)])>>)
 =============================================================================
